@@ -490,21 +490,8 @@ def shrink(ctx, line, step, kind=None):
     return ' '.join(head + best)
 
 
-def run(ctx):
-    rng = ctx.rng
-    thorough = ctx.tier == 'thorough'
-    if ctx.replay:
-        cases = [(ctx.replay['case']['line'], 'replay')]
-    else:
-        cases = corpus_lines()
-        cases += list(gen_exhaustive(ctx))
-        nrand = 3000 if thorough else 360
-        nsleepy = 96 if thorough else 16
-        for i in range(nrand):
-            cases.append((gen_random_history(rng, sleeps=(1 if i < nsleepy else 0)), 'random'))
-        for i in range(64 if thorough else 16):
-            cases.append((gen_expiry_history(rng), 'expiry'))
-        ctx.exhaustive = True
+def process(ctx, cases, st):
+    """run one batch of histories through the implementation and the model, compare, report"""
     # expensive histories (sleeps) first within the shards is not needed: shards run concurrently
     order = sorted(range(len(cases)), key=lambda i: (i % 16, i))      # interleave kinds over the 16 shards
     lines = [cases[i][0] for i in order]
@@ -513,8 +500,6 @@ def run(ctx):
     mlines = [t['model_line'] if t['ok'] else 'auth_seq none 0 0' for t in trs]
     model = run_parallel(hv.MODEL_BIN, mlines)
     ctx.evaluations += len(lines)
-    nsteps = 0
-    nreported = 0
     for idx, (line, io, mo) in enumerate(zip(lines, impl, model)):
         tag = cases[order[idx]][1]
         ctx.count('histories:' + tag)
@@ -529,7 +514,7 @@ def run(ctx):
                 k = tr['ops'][i].split(':')[0]
                 if k in ('ep', 'sl'):
                     continue
-                nsteps += 1
+                st['nsteps'] += 1
                 ctx.count('op:' + k)
                 ctx.count('result:%s:%s' % (k, res_class(r)))
                 if r not in ('ok', 'mark', 'true') and not r.startswith(('ok:', 'run:')):
@@ -541,11 +526,11 @@ def run(ctx):
             continue
         step = mm['step']
         small = line
-        nreported += 1
-        if nreported > 60:
+        st['nreported'] += 1
+        if st['nreported'] > 60:
             ctx.disagreements += 1          # counted, not minimised: the first ones already carry replays
             continue
-        minimise = nreported <= 8
+        minimise = st['nreported'] <= 8
         if minimise and not ctx.replay and mm['kind'] != 'harness':
             try:
                 small = shrink(ctx, line, step, mm['kind'])
@@ -574,19 +559,39 @@ def run(ctx):
                     'stream': tag},
                    'impl=' + str(mm['observed']), 'expected=' + str(mm['expected']),
                    cls='auth-' + mm['kind'], failing_input=mm['failing'], what=what)
+    # samples
+    for idx in range(len(lines)):
+        if len(st['sampled']) >= 4:
+            break
+        if idx < len(lines) and trs[idx]['ok'] and len(ctx.samples) < 6 and cases[order[idx]][1] not in st['sampled']:
+            st['sampled'].add(cases[order[idx]][1])
+            w = lines[idx].split(' ')
+            ctx.sample({'history': ' '.join(w[:24]) + (' ...' if len(w) > 24 else ''),
+                        'results': [x.split('|')[0] for x in trs[idx]['impl_items'][:20]],
+                        'stream': cases[order[idx]][1]})
+
+
+def run(ctx):
+    rng = ctx.rng
+    thorough = ctx.tier == 'thorough'
+    if ctx.replay:
+        cases = [(ctx.replay['case']['line'], 'replay')]
+    else:
+        cases = corpus_lines()
+        exh = list(gen_exhaustive(ctx))
+        nrand = 3000 if thorough else 360
+        nsleepy = 96 if thorough else 16
+        for i in range(nrand):
+            cases.append((gen_random_history(rng, sleeps=(1 if i < nsleepy else 0)), 'random'))
+        for i in range(64 if thorough else 16):
+            cases.append((gen_expiry_history(rng), 'expiry'))
+        ctx.exhaustive = True
+    st = {'nsteps': 0, 'nreported': 0, 'sampled': set()}
+    process(ctx, cases, st)
+    if not ctx.replay:
+        # the exhaustive stream, one lifetime configuration at a time (bounds the memory of the thorough tier)
+        for k in range(0, len(exh), 16):
+            process(ctx, exh[k:k + 16], st)
+    nsteps = st['nsteps']
     ctx.count('steps', nsteps)
     ctx.extra['steps_compared'] = nsteps
-    # samples
-    for idx in (0, len(lines) // 2, len(lines) - 1):
-        if idx < len(lines) and trs[idx]['ok']:
-            ctx.sample({'history': ' '.join(lines[idx].split(' ')[:18]) + (' ...' if len(lines[idx].split(' ')) > 18 else ''),
-                        'results': [x.split('|')[0] for x in trs[idx]['impl_items'][:14]],
-                        'stream': cases[order[idx]][1]})
-    for idx, c in enumerate(cases):
-        if c[1] in ('random', 'expiry') and len(ctx.samples) < 7:
-            j = order.index(idx)
-            if trs[j]['ok']:
-                ctx.sample({'history': ' '.join(lines[j].split(' ')[:24]) + ' ...',
-                            'results': [x.split('|')[0] for x in trs[j]['impl_items'][:20]], 'stream': c[1]})
-                if c[1] == 'expiry':
-                    break
